@@ -12,6 +12,9 @@ def _core(out, tier, seed, prop, quick_mc, thorough_mc, quick_rand, thorough_ran
         jobs["doc-" + cat] = core.doc_jobs(cat, nr, max(3, depth // 2), seed + 1)
         # random graphs with names and values outside the catalogues
         jobs["fuzz-" + cat] = core.fuzz_jobs(max(40, nr // 2), seed + 11, cat)
+        # renames on the small catalogues (multi-line groups listed by other groups are frequent there)
+        for small in (("gfa1s", "perml", "permp") if cat == "gfa1" else ("gfa2s", "permg")):
+            jobs["renall-" + small] = core.rename_jobs(small, max(40, nr // 3), seed + 55, kind="renall" + small)
         # equal lines without identifier are separate lines
         jobs["dup-" + cat] = core.dup_jobs(cat, seed + 61)
         # every identified line of a document renamed in turn
@@ -32,6 +35,11 @@ def _core(out, tier, seed, prop, quick_mc, thorough_mc, quick_rand, thorough_ran
         # conversions that name the unnamed edges of the source, then additions / renames / lookups
         jobs["conv-doc"] = core.doc_jobs("conv1", nr, 6, seed + 53, kind="convdoc")
         jobs["conv-ren"] = core.rename_jobs("conv1", nr // 2, seed + 54, kind="convren")
+    if prop == "C08":
+        # header histories at every level (header lines and header.add() with valid and invalid values)
+        for cat in ("gfa1", "gfa2"):
+            for vl in (1, 2, 3):
+                jobs["hdr-%s-%d" % (cat, vl)] = core.hdr_jobs(cat, max(30, nr // 4), seed + 70 + vl, vlevel=vl)
     if prop == "C08":
         # level 3 refuses more (invalid values): a larger share of histories at that level
         for cat in ("gfa1", "gfa2"):
@@ -145,10 +153,10 @@ def check_c03(out, tier, seed):
     from . import core as c
     rnd = random.Random(seed)
     plan = [("perm1", 3, 4, "none", None), ("perm2", 3, 4, "none", None),
-            ("permg", 3, 5, "none", None), ("perml", 3, 5, "none", None)] if tier == "quick" else \
+            ("permg", 3, 5, "none", None), ("perml", 3, 5, "none", None), ("permp", 3, 5, "none", None)] if tier == "quick" else \
            [("perm1", 3, 6, "none", 60000), ("perm2", 3, 5, "none", None),
             ("perm1", 3, 5, "gfa1", 30000), ("perm2", 3, 4, "gfa2", None),
-            ("permg", 3, 7, "none", 60000), ("perml", 3, 7, "none", 60000)]
+            ("permg", 3, 7, "none", 60000), ("perml", 3, 7, "none", 60000), ("permp", 3, 7, "none", 60000)]
     jobs = []
     sp_states = sp_trans = 0
     ndocs = 0
@@ -243,6 +251,9 @@ def check_c11(out, tier, seed):
             segs = [sa, sb] if second == "b" else [sa]
             tail = [dict(k="ren", text="", id="a", id2="d"), A(sc), dict(k="rm", text="", id="c", id2=""),
                     dict(k="rm", text="", id="e", id2="")]
+            if n % 2 == 0:
+                # a segment of the edge is removed instead: the edge (of whatever kind) goes with it
+                tail = tail[:3] + [dict(k="rm", text="", id=("b" if second == "b" else "d"), id2="")] + tail[3:]
             orders = [segs + [e], [e] + segs, [segs[0], e] + segs[1:]]
             if tier == "quick" and (n % 3):
                 orders = orders[n % 3: n % 3 + 1]     # quick: every cell, one of the orders each (rotating)
